@@ -194,6 +194,7 @@ type c12Book struct {
 	sizes  []int64 // declared sizes of spillable parts
 	prefix []int64 // prefix sums of declared sizes
 	nEntry int
+	neg    bool // some entry declares >= 2^63 bytes (negative FileInfo().Size())
 	ok     bool // opens under default limits
 }
 
@@ -382,8 +383,14 @@ func c12ApplyVariant(data []byte, variant string, seed uint64) []byte {
 		}
 		es = out
 	case "negsize":
-		// first entry, so that nothing has been spilled when readFile panics on the negative capacity
-		es = append([]c12Raw{{name: "docProps/neg.bin", content: []byte("x"), mode: 5}}, es...)
+		// an entry declaring 2^63+5 bytes at a random position (first for even seeds): rejected by the size guard;
+		// whatever was spilled before it must be cleaned up
+		neg := c12Raw{name: "docProps/neg.bin", content: []byte("x"), mode: 5}
+		pos := 0
+		if seed%2 == 1 {
+			pos = rng.Intn(len(es) + 1)
+		}
+		es = append(es[:pos], append([]c12Raw{neg}, es[pos:]...)...)
 	case "sstkey":
 		es = append(es, c12Raw{name: c12SSTKey, content: []byte("not a part")})
 	}
@@ -424,6 +431,9 @@ func c12MakeBook(id string) (*c12Book, error) {
 	for _, e := range zr.File {
 		sz := e.FileInfo().Size()
 		bk.total += sz
+		if sz < 0 {
+			bk.neg = true
+		}
 		bk.prefix = append(bk.prefix, bk.total)
 		n := strings.ReplaceAll(e.Name, "\\", "/")
 		if c12IsSheetName(n) || strings.EqualFold(n, c12SST) {
@@ -1097,7 +1107,7 @@ func c12Case(r *Run, bk *c12Book, xmlL, sizeL int64, hist []string, ref *c12Ref,
 				effSize = effXML
 			}
 		}
-		exceeds := false
+		exceeds := bk.neg
 		for _, p := range bk.prefix {
 			if p > effSize {
 				exceeds = true
@@ -1284,7 +1294,7 @@ func runC12(r *Run, rng *Rng, replay string) {
 	}
 	var ids []string
 	// deterministic witnesses first
-	ids = append(ids, "gen:1:plain", "gen:2:dup", "gen:3:badmethod", "gen:4:badcrc", "gen:5:negsize")
+	ids = append(ids, "gen:1:plain", "gen:2:dup", "gen:3:badmethod", "gen:4:badcrc", "gen:5:negsize", "gen:6:negsize")
 	for i := 0; i < nGen; i++ {
 		seed := rng.U64() % 1000000
 		v := "plain"
